@@ -44,7 +44,11 @@ C20_Clauses(cfg, h) ==
                        /\ (rets[1].t - cans[1].t) \div 1000 < promptMs
                        /\ (cfg.n = 0 => rets[1].ctxerr)
                        /\ \A i \in 1..Len(h) : h[i].ev = "exec" => h[i].t0 <= cans[1].t,
-   terminated   |-> Len(rets) = 1
+   terminated   |-> Len(rets) = 1,
+   \* the wait ends with the next attempt unless a cancellation ended it: a run whose context was never cancelled
+   \* makes every attempt of its budget (stop-on-error batches abandon the siblings of a failed item)
+   waitCompletes |-> (cans = <<>> /\ ~cfg.stop) => \A p \in Pipes(h) : LET a == Attempts(h, p) IN
+                       a[Len(a)].ok \/ Len(a) = cfg.N
   ]
 \* C02 on timed runs: the fallback is invoked only after all N attempts failed - in particular not
 \* because a cancellation ended the wait between two attempts
